@@ -120,6 +120,13 @@ def rule_inplace_name(ctx):
             if n["k"] == "decl" and n.get("n") == off:
                 init = g.nodes.get(n["a"][0]) if n.get("a") else None
                 r.check(init is not None and init["k"] == "int" and init["v"] == 0, "make_output_filename/offset-starts-at-0", db.loc(g, n), "`%s` does not start at 0" % off)
+    # nothing rewrites the buffer after the final snprintf
+    late = [n for n in g.all_nodes() if n["k"] in ("asg",) or (n["k"] == "un" and n.get("op") in ("++", "--")) or
+            (n["k"] == "call" and n.get("c") in ("memmove", "memcpy", "strcpy", "strcat", "snprintf", "sprintf") and n["i"] != last["i"])]
+    late = [n for n in late if g.dominates(last["i"], n["i"])]
+    r.check(not late, "make_output_filename/nothing-after-final-snprintf", db.loc(g, late[0] if late else last),
+            "make_output_filename edits the name after it was formatted (%s): an input name that the edit changes is no longer recognised as "
+            "in-place by do_source_file's strcmp" % [expr_str(g, n["i"])[:40] for n in late[:3]])
     # callers: the name formatted is the name opened
     n_calls = 0
     for f2, c in db.callers_of("do_source_file"):
@@ -134,6 +141,32 @@ def rule_inplace_name(ctx):
                     "do_source_file(%s, make_output_filename(…, %s, …)): different names" % (expr_str(f2, a[0]), expr_str(f2, out["a"][2])))
     r.require(n_calls >= 2, "only %d do_source_file(…, make_output_filename(…)) call sites" % n_calls)
     r.floor(5)
+
+
+def rule_output_or_exit(ctx):
+    """do_source_file installs the temp file (or the buffered --if-changed output) whenever uncrustify_file() returns; so a
+    formatting failure must leave uncrustify_file() through exit(), never through a return: every returning path of
+    uncrustify_file passes output_text()."""
+    db = ctx.db
+    r = ctx.rule("output-or-exit", "every path from the entry of uncrustify_file() to its return passes a call of output_text() (failures leave "
+                 "through exit(), which do_source_file's rename block is never reached after)")
+    u = db.fn("uncrustify_file", file=UNC)
+    outs = db.calls_in(u, "output_text")
+    r.require(outs, "uncrustify_file does not call output_text")
+    start = u.blocks[u.entry]["n"][0]["i"] if u.blocks[u.entry]["n"] else next(iter(u.all_nodes()))["i"]
+    w = u.exit_reachable_avoiding(start, lambda n: n["k"] == "call" and n.get("c") == "output_text")
+    r.seen(len(u.blocks))
+    r.check(not w, "uncrustify_file/returns-only-after-output", db.loc(u, u.l0),
+            "uncrustify_file() can return without having called output_text(): do_source_file then installs an empty or partial output over "
+            "the source and exits 0", path=["%s:%d" % (u.file, l) for l in u.path_lines(w)][-8:] if w and not isinstance(w, bool) else None)
+    # the caller: nothing between the uncrustify_file() call and the rename decision looks at a failure indication, so the
+    # above is the only protection; and the call is made with the stream that is renamed later
+    f = db.fn("do_source_file", file=UNC)
+    calls = db.calls_in(f, "uncrustify_file")
+    r.require(calls, "do_source_file does not call uncrustify_file")
+    for c in calls:
+        r.check(expr_str(f, c["a"][1]) in ("pfout", "nullptr"), "do_source_file/formats-into-pfout", db.loc(f, c), "uncrustify_file is handed `%s`, neither the stream that is installed nor nullptr (buffer-only run)" % expr_str(f, c["a"][1]))
+    r.floor(2)
 
 
 def rule_order(ctx):
@@ -321,4 +354,10 @@ def rule_write_error_checked(ctx):
     r.floor(2)
 
 
-RULES = [rule_tmp_only, rule_inplace_name, rule_order, rule_rename_owner, rule_write_error_checked]
+def rule_md5_block_invariant(ctx):
+    """the md5 shortcut of backup_copy_file() decides whether a backup is written before the source is replaced"""
+    from . import c14
+    c14.rule_md5_block_invariant(ctx)
+
+
+RULES = [rule_tmp_only, rule_inplace_name, rule_output_or_exit, rule_order, rule_rename_owner, rule_write_error_checked, rule_md5_block_invariant]
